@@ -5,6 +5,7 @@ import (
 	"context"
 	"encoding/json"
 	"fmt"
+	"os"
 	"strings"
 	"time"
 
@@ -235,7 +236,44 @@ func classify(msg string) string {
 	return "other"
 }
 
+func debugDet() {
+	sc := scen{Prio: nil, Bg: 1, Concurrency: 1, Steps: 2, ShortTO: true}
+	var first []string
+	for k := 0; k < 40; k++ {
+		_, _, t, b := vexp.Replay(scenario(sc), []int{1, 0, 0, 0, 1})
+		if first == nil {
+			first = t
+			fmt.Println(len(t), b)
+			continue
+		}
+		for i := 0; i < len(t) || i < len(first); i++ {
+			if i >= len(t) || i >= len(first) || t[i] != first[i] {
+				lo := i - 10
+				if lo < 0 {
+					lo = 0
+				}
+				for j := lo; j < i+6; j++ {
+					a, c := "", ""
+					if j < len(first) {
+						a = first[j]
+					}
+					if j < len(t) {
+						c = t[j]
+					}
+					fmt.Printf("%d: %-40s | %s\n", j, a, c)
+				}
+				return
+			}
+		}
+	}
+	fmt.Println("no difference")
+}
+
 func main() {
+	if os.Getenv("C13_DEBUG") != "" {
+		debugDet()
+		return
+	}
 	runner.Main(runner.Check{
 		ID:          "C13",
 		Level:       "model_checking",
